@@ -419,11 +419,16 @@ class Case:
                 for st in self.P['sets']:
                     if st['pkg'] == 'a' and st.get('grp') != '=inline':
                         body.append('var %s = wire.NewSet(%s)\n' % (self.nm(st['name']), ', '.join(self.item_expr(it, 'a', used) for it in st['items'])))
+            if fno == 1 and (self.P.get('opts') or {}).get('embeddecl'):
+                body.append('//go:embed embedded.txt\nvar embeddedText string\n\n// EmbeddedText is copied into the generated file together with the variable it reads.\nfunc EmbeddedText() string { return embeddedText }\n')
             if (self.P.get('opts') or {}).get('filedecl'):
                 body.append('// helperCount%d is a non-injector declaration of this injector file.\nvar helperCount%d = %d\n' % (fno, fno, fno))
             name = 'wire.go' if fno == 1 else 'wire_%d.go' % fno
+            extra = ['"github.com/google/wire"']
+            if fno == 1 and (self.P.get('opts') or {}).get('embeddecl'):
+                extra = ['_ "embed"', ''] + extra
             out[name] = self.dotwire('//go:build wireinject\n// +build wireinject\n\npackage %s\n\n%s%s'
-                                     % (self.pkgname, self.imports('a', used, ['"github.com/google/wire"']), '\n'.join(body)))
+                                     % (self.pkgname, self.imports('a', used, extra), '\n'.join(body)))
         return out
 
     def drive_file(self, runtime=True):
@@ -491,6 +496,8 @@ class Case:
         for n, txt in self.wire_files().items():
             fs[self.dir + '/' + n] = txt
         fs[self.dir + '/drive.go'] = self.drive_file(runtime)
+        if (self.P.get('opts') or {}).get('embeddecl'):
+            fs[self.dir + '/embedded.txt'] = 'embedded text\n'
         return fs
 
 
